@@ -164,6 +164,10 @@ def h_files( ctx ):
     src = ctx.src( HFILES )
     op = src.get( 'reader.open' )
     loops = [ s for s in ast.walk( op ) if isinstance( s, ast.For ) and any( is_call_to( c, 'os.listdir' ) for c in ast.walk( s.iter )) ]
+    globs = [ c for c in ast.walk( op ) if isinstance( c, ast.Call ) and ( call_name( c ) or '' ).split( '.' )[-1] in ( 'glob', 'iglob', 'fnmatch', 'filter' ) and ( call_name( c ) or '' ).split( '.' )[0] in ( 'glob', 'fnmatch' ) ]
+    if globs:
+        res.bad( src, globs[0], 'reader.open finds its candidate files by PATTERN ( %s )' % norm_text( globs[0] )[:60], 'the path the logger opened literally is read as a pattern on replay: a history path holding [ ] * ? ( unit[3].hst ) matches nothing - the replay completes having delivered no record' )
+        return res
     if len( loops ) != 1:
         raise AnalysisError( 'reader.open: the loop over os.listdir not found' )
     lp = loops[0]
@@ -179,7 +183,12 @@ def h_files( ctx ):
     if isinstance( gen, ( ast.GeneratorExp, ast.ListComp )) and len( gen.generators ) == 1:
         g = gen.generators[0]
         v = g.target.id if isinstance( g.target, ast.Name ) else None
-        flt = g.ifs and M.m( g.ifs[0], '%s.startswith( self.name )' % v )
+        # the filter: the entry IS the base name, or continues it with a '.' ( a bare prefix test also admits the files of another history
+        # whose name merely begins the same way: replaying 'unit1' takes in 'unit10', 'unit10.1' ... )
+        flt = g.ifs and len( g.ifs ) == 1 and isinstance( g.ifs[0], ast.BoolOp ) and isinstance( g.ifs[0].op, ast.Or ) and len( g.ifs[0].values ) == 2 \
+            and any( pmatch( x_, '%s == self.name' % v ) is not None for x_ in g.ifs[0].values ) \
+            and any( pmatch( x_, "%s.startswith( self.name + '.' )" % v ) is not None for x_ in g.ifs[0].values )
+        prefix_only = bool( g.ifs ) and pmatch( g.ifs[0], '%s.startswith( self.name )' % v ) is not None
         m2 = pmatch( gen.elt, '%s[_flen:]' % v )
         flen_ok = False
         if m2 is not None:
@@ -188,8 +197,13 @@ def h_files( ctx ):
                 flen_ok = True
             elif isinstance( fl, ast.Name ):
                 flen_ok = bool( pfind( op, '%s = len( self.name )' % fl.id ))
-        if flt and flen_ok and pmatch( g.iter, 'os.listdir( self.dirs )' ) and len( g.ifs ) == 1:
-            res.ok( src, gen, 'candidates = suffixes of the entries of self.dirs that start with self.name' )
+        listed = pmatch( g.iter, "os.listdir( self.dirs or '.' )" ) is not None or pmatch( g.iter, "os.listdir( self.dirs or os.curdir )" ) is not None
+        if flt and flen_ok and listed and len( g.ifs ) == 1:
+            res.ok( src, gen, 'candidates = suffixes of the entries of the history directory ( the current one for a bare file name ) that are self.name or continue it with "."' )
+        elif prefix_only and flen_ok:
+            res.bad( src, gen, 'the candidate files are all entries that merely BEGIN with the base name', 'a history whose name is a prefix of another\'s ( unit1 / unit10 ) takes in the other\'s files: foreign records are delivered and its own are lost' )
+        elif flt and flen_ok and pmatch( g.iter, 'os.listdir( self.dirs )' ) is not None:
+            res.bad( src, gen, 'os.listdir( self.dirs ) with an empty directory part', 'a history given by a bare file name ( the logger accepts it ) cannot be replayed: os.listdir( \'\' ) raises, the loader goes FAILED' )
         else:
             res.bad( src, gen, gen, 'the candidate files must be exactly the directory entries starting with the history base name, identified by their suffix' )
     else:
